@@ -63,6 +63,7 @@ fn main() {
                 "reopen" => ops.push(api::LogOp::Reopen),
                 "flip" => ops.push(api::LogOp::Flip(t[2].parse().unwrap(), t[3].parse().unwrap())),
                 "truncate" => ops.push(api::LogOp::Truncate(t[2].parse().unwrap())),
+                "peek" => ops.push(api::LogOp::Peek(t[2].parse().unwrap())),
                 _ => panic!("bad op"),
             },
             "db" => match t[1] {
@@ -117,7 +118,17 @@ fn main() {
             let show = |v: &Vec<Vec<u8>>| {
                 v.iter().map(|r| if r.len() > 24 { format!("{}..({}B)", hex(&r[..8]), r.len()) } else { hex(r) }).collect::<Vec<_>>().join(",")
             };
-            if actual != expected || err.is_some() {
+            // scripts without damage (only append / reopen / peek): the reader must return exactly the
+            // records that were appended, in order (C12, first sentence) - not merely what the bytes
+            // in the file decode to
+            let pure = ops.iter().all(|o| matches!(o, api::LogOp::Append(_) | api::LogOp::Reopen | api::LogOp::Peek(_)));
+            let appended: Vec<Vec<u8>> = ops.iter().filter_map(|o| if let api::LogOp::Append(d) = o { Some(d.clone()) } else { None }).collect();
+            if pure && actual != appended {
+                println!(
+                    "REPLAY violated oracle=log_reader file_len={} returned=[{}] appended=[{}] error={:?}",
+                    bytes.len(), show(&actual), show(&appended), err
+                );
+            } else if actual != expected || err.is_some() {
                 println!(
                     "REPLAY violated oracle=log_reader file_len={} returned=[{}] expected=[{}] error={:?}",
                     bytes.len(), show(&actual), show(&expected), err
